@@ -16,8 +16,19 @@ pub struct Gc<T> { p: core::marker::PhantomData<T> }
 impl<T> Clone for Gc<T> { #[verifier::external_body] fn clone(&self) -> (r: Self) ensures r == *self { Gc { p: core::marker::PhantomData } } }
 impl<T> Copy for Gc<T> {}
 
-//@enum file=yarel/src/value.rs name=Value keep=Boolean,None other=Other
+impl<T> Gc<T> { pub uninterp spec fn id(&self) -> int; pub uninterp spec fn obj(&self) -> T; }
+#[verifier::external_body]
+fn gc_eq<T>(a: Gc<T>, b: Gc<T>) -> (r: bool) ensures r == (a.id() == b.id()) { unimplemented!() }
+pub struct RefCell<T> { pub v: T }
+impl<T> RefCell<T> { #[verifier::external_body] pub fn borrow(&self) -> (r: &T) ensures *r == self.v { &self.v } }
+impl<T> std::ops::Deref for Gc<T> { type Target = T; #[verifier::external_body] fn deref(&self) -> (r: &T) ensures *r == self.obj() { unimplemented!() } }
+pub struct ObjClass { }
+pub struct ObjInstance { pub class: Gc<ObjClass> }
+//@enum file=yarel/src/value.rs name=Value keep=Boolean,ObjInstance,None other=Other
 impl Value {
+    //@fn file=yarel/src/value.rs path=Value::try_as_obj_instance ret=r
+    //@  ensures r == (match *self { Value::ObjInstance(i) => Some(i), _ => None })
+    //@end
     // truthiness: false and nil are falsey, everything else is truthy
     //@fn file=yarel/src/value.rs path=Value::into_bool ret=r
     //@  ensures r == !(*self == Value::Boolean(false) || *self is None)
@@ -33,13 +44,19 @@ fn ip_offset(ip: usize, n: u16) -> (r: usize) requires ip + n <= usize::MAX ensu
 #[verifier::external_body]
 fn ip_offset_back(ip: usize, n: u16) -> (r: usize) requires n <= ip ensures r == ip - n { unimplemented!() }
 
-pub struct Vm { pub ip: usize, pub ghost code: Seq<u8>, pub ghost stack: Seq<Value> }
+// the core class store as far as the iteration protocol is concerned: the class whose instances end an iteration
+pub struct ClassStore { pub ghost stop_iter: int }
+impl ClassStore {
+    #[verifier::external_body] fn stop_iter_class(&self) -> (r: Gc<ObjClass>) ensures r.id() == self.stop_iter { unimplemented!() }
+}
+pub struct Vm { pub ip: usize, pub ghost code: Seq<u8>, pub ghost stack: Seq<Value>, pub class_store: ClassStore }
+pub open spec fn is_stop_iter(v: Value, stop: int) -> bool { v matches Value::ObjInstance(i) && i.obj().v.class.id() == stop }
 
 impl Vm {
     #[verifier::external_body]
     fn read_short(&mut self) -> (r: u16)
         requires old(self).ip + 2 <= old(self).code.len()
-        ensures final(self).ip == old(self).ip + 2, final(self).code == old(self).code, final(self).stack == old(self).stack,
+        ensures final(self).ip == old(self).ip + 2, final(self).code == old(self).code, final(self).stack == old(self).stack, final(self).class_store == old(self).class_store,
             r as int == u16_of(old(self).code[old(self).ip as int], old(self).code[old(self).ip as int + 1]),
     { unimplemented!() }
     #[verifier::external_body]
@@ -58,6 +75,16 @@ impl Vm {
     //@  ensures @conditional_jump_keeps_the_tested_value final(self).stack == old(self).stack
     //@  ensures @falsey_top_takes_the_jump (old(self).stack.last() == Value::Boolean(false) || old(self).stack.last() is None) ==> final(self).ip == old(self).ip + 2 + old(self).operand()
     //@  ensures @truthy_top_falls_through !(old(self).stack.last() == Value::Boolean(false) || old(self).stack.last() is None) ==> final(self).ip == old(self).ip + 2
+    //@end
+    // JumpIfStopIter (for loops): leaves the loop iff the value `next()` returned is an instance of exactly the StopIter
+    // class; the value stays on the stack (both paths pop it: unit flowc)
+    //@fn file=yarel/src/vm.rs path=Vm::jump_if_stop_iter props=C05,C18
+    //@  rewrite R20
+    //@  subst "instance.borrow().class == stop_iter_class" => "gc_eq(instance.borrow().class, stop_iter_class)"
+    //@  requires old(self).ip + 2 <= old(self).code.len(), old(self).code.len() < 0x4000_0000_0000_0000, old(self).stack.len() > 0
+    //@  ensures final(self).stack == old(self).stack
+    //@  ensures @an_exhausted_iterator_takes_the_exit_jump is_stop_iter(old(self).stack.last(), old(self).class_store.stop_iter) ==> final(self).ip == old(self).ip + 2 + old(self).operand()
+    //@  ensures @any_other_value_is_an_element !is_stop_iter(old(self).stack.last(), old(self).class_store.stop_iter) ==> final(self).ip == old(self).ip + 2
     //@end
     //@fn file=yarel/src/vm.rs path=Vm::loop_impl
     //@  rewrite R20
